@@ -6,6 +6,7 @@ package main
 
 import (
 	"fmt"
+	"github.com/ethereum/go-ethereum/metrics"
 	"io"
 	"math/rand"
 	"os"
@@ -18,6 +19,17 @@ type runner func(o *Out, r *rand.Rand, thorough bool, args []string)
 
 var runners = map[string]runner{}
 
+// metricsOn: this process runs with go-ethereum metrics enabled (a second, shorter pass of a scenario)
+var metricsOn bool
+
+// shorter scales a loop count down for the metrics-on pass of the quick tier
+func shorter(n int, thorough bool) int {
+	if metricsOn && !thorough {
+		return max(1, n/3)
+	}
+	return n
+}
+
 func main() {
 	if len(os.Args) < 2 {
 		fmt.Fprintln(os.Stderr, "usage: harness <prop> [args]   (env VERIF_SEED, VERIF_TIER)")
@@ -26,6 +38,12 @@ func main() {
 	log.SetDefault(log.NewLogger(log.NewTerminalHandlerWithLevel(io.Discard, log.LevelCrit, false)))
 	seed := int64(envInt("VERIF_SEED", 1))
 	thorough := os.Getenv("VERIF_TIER") == "thorough"
+	if os.Getenv("VERIF_METRICS") == "1" {
+		// the node as operators run it with --metrics: every "if metrics.Enabled()" branch of the code is live. The switch is
+		// process-wide and has to be thrown before any protocol instance exists.
+		metrics.Enable()
+		metricsOn = true
+	}
 	run, ok := runners[os.Args[1]]
 	if !ok {
 		fmt.Fprintln(os.Stderr, "unknown property", os.Args[1])
